@@ -36,7 +36,7 @@ set_option maxRecDepth 100000 in
 theorem trace_nostdin :
     (trace false).map (·.1) =
       [.fopen exEnv.confpath, .fclose 3, .opendir exNew, .readdir 4, .openRd 4 exName, .read 5, .read 5,
-       .openPath (ofString "/dev/null"), .fork, .waitpid, .close 6, .close 5,
+       .openPath (ofString "/dev/null"), .fork [ofString "true"] 6, .waitpid, .close 6, .close 5,
        .readdir 4, .closedir 4, .opendir exCur, .readdir 7, .closedir 7] := by
   unfold trace
   rw [Own.mainP_eq]
@@ -49,7 +49,7 @@ set_option maxRecDepth 100000 in
 theorem trace_stdin :
     (trace true).map (·.1) =
       [.fopen exEnv.confpath, .fclose 3, .opendir exNew, .readdir 4, .openRd 4 exName, .read 5, .read 5,
-       .dupfd 5, .lseek 6, .fork, .waitpid, .close 6, .close 5,
+       .dupfd 5, .lseek 6, .fork [ofString "cat"] 6, .waitpid, .close 6, .close 5,
        .readdir 4, .closedir 4, .opendir exCur, .readdir 7, .closedir 7] := by
   unfold trace
   rw [Own.mainP_eq]
@@ -62,10 +62,10 @@ set_option maxRecDepth 100000 in
 /-- The descriptor table at the `fork` (call 8 resp. 9): the stream of `/m/new`, the message, and `/dev/null` resp. the
 duplicate of the message's descriptor - each with the call that created it; and at the end of the run nothing is open. -/
 theorem tables :
-    (trace false)[8]? = some (.fork, .ok 0) ∧
+    (trace false)[8]? = some (.fork [ofString "true"] 6, .ok 0) ∧
     openFdsBy ((trace false).take 8) = [(4, .opendir exNew), (5, .openRd 4 exName), (6, .openPath (ofString "/dev/null"))] ∧
     openFds ((trace false).take 8) = [4, 5, 6] ∧ openFds (trace false) = [] ∧
-    (trace true)[9]? = some (.fork, .ok 0) ∧
+    (trace true)[9]? = some (.fork [ofString "cat"] 6, .ok 0) ∧
     openFdsBy ((trace true).take 9) = [(4, .opendir exNew), (5, .openRd 4 exName), (6, .dupfd 5)] ∧
     ((trace true).take 9).getLast? = some (.lseek 6, .ok 0) ∧ openFds (trace true) = [] := by
   unfold trace
@@ -156,9 +156,9 @@ nothing is open. -/
 theorem tablesC :
     traceC.map (·.1) =
       [.fopen exEnv.confpath, .fclose 3, .opendir exNew, .readdir 4, .openRd 4 exName, .read 5, .read 5,
-       .openPath (ofString "/dev/null"), .fork, .waitpid, .close 6, .close 5,
+       .openPath (ofString "/dev/null"), .fork [ofString "false"] 6, .waitpid, .close 6, .close 5,
        .readdir 4, .closedir 4, .opendir exCur, .readdir 7, .closedir 7] ∧
-    traceC[8]? = some (.fork, .ok 0) ∧
+    traceC[8]? = some (.fork [ofString "false"] 6, .ok 0) ∧
     openFdsBy (traceC.take 8) = [(4, .opendir exNew), (5, .openRd 4 exName), (6, .openPath (ofString "/dev/null"))] ∧
     (traceC.take 8).getLast? = some (.openPath Own.devNull, .ok 6) ∧ openFds traceC = [] := by
   unfold traceC
